@@ -382,6 +382,56 @@ impl Run<'_> {
         self.ctx.event(&ev);
         self.ctx.sample(|| ev.clone());
     }
+    fn composition(&mut self, ts: &Ts, segs: &[String]) {
+        let ts = ts.for_syntax(0);
+        let x = ts.text(0, ts.ns % 1000 == 0);
+        let whole: String = segs.concat();
+        let h = hash_combine(hash_str(&x), hash_str(&whole) ^ 0x636f6d70);
+        if segs.len() < 2 || !self.ctx.mine(h) {
+            return;
+        }
+        let Ok(Some(dt)) = guard(|| DateTime::from_str(&x)) else { return };
+        let one = |f: &str| {
+            let mut o = Object::new();
+            o.insert("fmt".into(), Value::scalar(f.to_string()));
+            o.insert("ts".into(), Value::scalar(dt));
+            render(&self.tp.fmt, &o)
+        };
+        let parts: Vec<Out> = segs.iter().map(|f| one(f)).collect();
+        let all = one(&whole);
+        self.ctx.record(h, true);
+        self.ctx.count("family:composition");
+        let replay = || json!({"check":"C17","kind":"fmt","x":x,"fmt":whole,"via_string":false,"segments":segs});
+        if let Out::Panic(p) = &all {
+            self.ctx.violation(&p.key(), &format!("date: {whole:?} on {x} panicked: {}", p.msg), replay);
+            return;
+        }
+        if parts.iter().all(|p| matches!(p, Out::Ok(_))) {
+            let want: String = parts.iter().map(|p| if let Out::Ok(s) = p { s.as_str() } else { "" }).collect();
+            match &all {
+                Out::Ok(got) if *got == want => self.ctx.count("composition:agrees"),
+                Out::Ok(got) => self.ctx.violation(
+                    "strftime:format-is-not-rendered-piece-by-piece",
+                    &format!("date: {whole:?} on {x} gave {got:?}, but its pieces {segs:?} give {want:?} one by one"),
+                    replay,
+                ),
+                _ => self.ctx.violation(
+                    "strftime:concatenation-fails-where-pieces-render",
+                    &format!("date: {whole:?} on {x} failed although each of its pieces {segs:?} renders"),
+                    replay,
+                ),
+            }
+        } else {
+            self.ctx.count("composition:a-piece-fails");
+            if matches!(all, Out::Ok(_)) {
+                self.ctx.violation(
+                    "strftime:concatenation-renders-where-a-piece-fails",
+                    &format!("date: {whole:?} on {x} rendered although one of its pieces {segs:?} fails alone"),
+                    replay,
+                );
+            }
+        }
+    }
     fn rt(&mut self, ts: &Ts, syntax: u8, trim: bool) {
         let ts = ts.for_syntax(syntax);
         let x = ts.text(syntax, trim);
@@ -565,6 +615,17 @@ pub fn run(ctx: &mut Ctx) {
         r.fmt("random-concatenation", &ts, syntax, via_string, &f);
     }
 
+    // W5b: a format is rendered piece by piece -- the output of a concatenation of directives and
+    // literals is the concatenation of their separate outputs (checked here, no offline part;
+    // needs no reference: both sides are the real code)
+    let n = if quick { 6_000u64 } else { 300_000 };
+    for i in 0..n {
+        let mut g = rng.fork(0x5b00_0000 + i);
+        let ts = random_ts(&mut g, &offs);
+        let segs = random_format_segments(&mut g);
+        r.composition(&ts, &segs);
+    }
+
     // W6: print / parse round trips over every accepted syntax
     let hours: Vec<i64> = if quick { vec![0, 23] } else { (0..24).collect() };
     for &y in &years() {
@@ -689,9 +750,19 @@ const UNKNOWN: [&str; 16] = ["f", "i", "J", "K", "o", "q", "Q", "!", ".", "é", 
 const LITERALS: [&str; 20] = [" ", "-", ":", "/", ", ", "T", "Z", "at ", "é", "日本", "😀", "0", "12", "a", "W", ".", "|", "[", "]", "day "];
 
 fn random_format(g: &mut Rng) -> String {
-    let mut f = String::new();
+    let mut f = random_format_segments(g).concat();
+    if g.chance(1, 40) {
+        f.push_str(*g.pick(&["%", "%-", "%5", "%E", "%^#", "%012", "%_O"]));
+    }
+    f
+}
+
+/// the segments (one directive or one literal each) of a random format
+fn random_format_segments(g: &mut Rng) -> Vec<String> {
+    let mut segs: Vec<String> = Vec::new();
     let nseg = 1 + g.below(8);
     for _ in 0..nseg {
+        let mut f = String::new();
         match g.below(100) {
             0..=24 => {
                 // numeric directive, flags and widths of the exactly specified sub-domain
@@ -757,11 +828,9 @@ fn random_format(g: &mut Rng) -> String {
             }
             _ => f.push_str(*g.pick(&LITERALS)),
         }
+        segs.push(f);
     }
-    if g.chance(1, 40) {
-        f.push_str(*g.pick(&["%", "%-", "%5", "%E", "%^#", "%012", "%_O"]));
-    }
-    f
+    segs
 }
 
 /// re-execute one recorded input on the real code and print the fresh event
